@@ -135,6 +135,30 @@ def run(tier, seed, replay=None):
                         {"tlc": res.raw[-2000:]})
         states += res.distinct
         trans += res.states
+    apalache = "not run"
+    if tier == "thorough":
+        # the same arithmetic for UNBOUNDED naturals (Apalache, SMT): VSpaceU.tla
+        import shutil as _sh
+        import tempfile
+        if _sh.which("apalache-mc") is None:
+            raise ToolError("apalache-mc is not on PATH")
+        with tempfile.TemporaryDirectory(dir="/var/tmp") as td:
+            _sh.copy(core.SPEC / "VSpaceU.tla", td)
+            try:
+                ar = subprocess.run(["apalache-mc", "check", "--inv=Inv", "--length=0",
+                                     f"--out-dir={td}/out", "VSpaceU.tla"], cwd=td,
+                                    capture_output=True, text=True, timeout=900)
+            except subprocess.TimeoutExpired:
+                raise ToolError("apalache-mc timed out on VSpaceU.tla")
+            if "The outcome is: NoError" in ar.stdout:
+                apalache = "NoError"
+            elif "The outcome is: Error" in ar.stdout or "violat" in ar.stdout:
+                apalache = "Error"
+                v.violation("model:VSpaceU", "VSpaceU.tla (unbounded push_vertical_spaces arithmetic): "
+                            "Apalache reports a counterexample", {"apalache": ar.stdout[-3000:]})
+            else:
+                raise ToolError("apalache-mc did not finish on VSpaceU.tla:\n" + ar.stdout[-1500:]
+                                + ar.stderr[-500:])
     unit = core.harness_bin("rfv-unit")
     r = subprocess.run([unit, "newline", "6" if tier == "quick" else "8"], env=core.run_env(),
                        capture_output=True, text=True)
@@ -242,7 +266,7 @@ def run(tier, seed, replay=None):
                    "variants x bounds, formatted in-process; distinct = distinct (file, terminators, "
                    "options) whose run reported no error",
            "newline_records": len(nrecs), "whitespace_records": len(wrecs),
-           "skipped_runs_with_errors": skipped, "obs_states": ostates + wstates,
+           "skipped_runs_with_errors": skipped, "obs_states": ostates + wstates, "apalache_vspace_unbounded": apalache,
            "exhaustive": False}
     return v.finish("model_checking", cov, [
         "rustc_lexer classifies the emitted text; lines inside macro calls/definitions and after "
